@@ -45,10 +45,33 @@ func (r *Run) storeGuardsOf(fd *FuncDecl) map[string][]string {
 			}
 		}
 		record := func(lhs ast.Expr, at ast.Node) {
-			if _, bare := ast.Unparen(lhs).(*ast.Ident); bare || !rootedRecv(lhs) {
+			shape := ""
+			if id, bare := ast.Unparen(lhs).(*ast.Ident); bare {
+				// local accumulators: `acc = acc.Op(x)`, `acc = append(acc, x)`, `acc += x` – the value folded in
+				// must have passed the same checks as on the reference tree
+				as, isAssign := at.(*ast.AssignStmt)
+				v, _ := info.Uses[id].(*types.Var)
+				if !isAssign || v == nil || v.IsField() || len(as.Lhs) != len(as.Rhs) {
+					return
+				}
+				var rhs ast.Expr
+				for i, l := range as.Lhs {
+					if l == lhs {
+						rhs = as.Rhs[i]
+					}
+				}
+				if rhs == nil || (as.Tok.String() == "=" && !mentionsVar(info, rhs, v)) {
+					return
+				}
+				if enclosingLoop(u.Body, at) == nil {
+					return
+				}
+				shape = "acc<" + shortType(v.Type()) + "> <- " + u.argShape(rhs, at, 3)
+			} else if !rootedRecv(lhs) {
 				return
+			} else {
+				shape = fieldPath(info, lhs)
 			}
-			shape := fieldPath(info, lhs)
 			set := map[string]bool{}
 			for _, a := range u.Atoms {
 				if a.Unit != u || a.Skip {
